@@ -117,7 +117,7 @@ theorem tie_shape_NewFirmwareVolume :
     Gen.UefiParse.callcount_NewFirmwareVolume_NewFile = 1 := by decide
 
 theorem tie_shape_NewFile :
-    Gen.UefiParse.sliceshapes_NewFile = ["[:h]", "[:h]", "[l:]", "[l:]"] ∧
+    Gen.UefiParse.sliceshapes_NewFile = ["[:h]", "[:h]", "[:h]", "[l:]", "[l:]"] ∧
     Gen.UefiParse.cmpops_NewFile = ["<", "==", "==", "==", "== 0", "== 18446744073709551615", ">", ">="] ∧
     Gen.UefiParse.callcount_NewFile_Align4 = 1 ∧ Gen.UefiParse.callcount_NewFile_NewSection = 1 := by decide
 
